@@ -3,7 +3,13 @@ Pipeline base lemmas (C05, C07): every pipeline step is a step of the embedded q
 (so every QueueSM theorem of C19 holds for both Reader queues), each Reader queue has a single
 producer, and the simple safety invariants of the consumer's status machine / header promise.
 -/
-import Osmium.Lemmas.PipelineDefs
+import Osmium.Lemmas.PipelineBaseA
+import Osmium.Lemmas.PipelineBaseB
+import Osmium.Lemmas.PipelineBaseC
+import Osmium.Lemmas.PipelineBaseD
+import Osmium.Lemmas.PipelineBaseE
+import Osmium.Lemmas.PipelineBaseF
+import Osmium.Lemmas.PipelineBaseG
 
 namespace Osmium.Pipeline
 
@@ -12,608 +18,7 @@ open Osmium.Mon
 set_option linter.unusedSimpArgs false
 
 variable {α : Type}
-
-/-! ## `afterPop` / `afterClose` field by field -/
-
-section proj
-variable (s : State α) (lv : List (List α)) (k : CK)
-
-@[simp] theorem afterPop_inq : (afterPop s lv).inq = s.inq := by
-  unfold afterPop; split <;> (try split) <;> rfl
-@[simp] theorem afterPop_outq : (afterPop s lv).outq = s.outq := by
-  unfold afterPop; split <;> (try split) <;> rfl
-@[simp] theorem afterPop_fut : (afterPop s lv).fut = s.fut := by
-  unfold afterPop; split <;> (try split) <;> rfl
-@[simp] theorem afterPop_want : (afterPop s lv).want = s.want := by
-  unfold afterPop; split <;> (try split) <;> rfl
-@[simp] theorem afterPop_nIn : (afterPop s lv).nIn = s.nIn := by
-  unfold afterPop; split <;> (try split) <;> rfl
-@[simp] theorem afterPop_nOut : (afterPop s lv).nOut = s.nOut := by
-  unfold afterPop; split <;> (try split) <;> rfl
-@[simp] theorem afterPop_rpc : (afterPop s lv).rpc = s.rpc := by
-  unfold afterPop; split <;> (try split) <;> rfl
-@[simp] theorem afterPop_stop : (afterPop s lv).stop = s.stop := by
-  unfold afterPop; split <;> (try split) <;> rfl
-@[simp] theorem afterPop_reads : (afterPop s lv).reads = s.reads := by
-  unfold afterPop; split <;> (try split) <;> rfl
-@[simp] theorem afterPop_ppc : (afterPop s lv).ppc = s.ppc := by
-  unfold afterPop; split <;> (try split) <;> rfl
-@[simp] theorem afterPop_avail : (afterPop s lv).avail = s.avail := by
-  unfold afterPop; split <;> (try split) <;> rfl
-@[simp] theorem afterPop_next : (afterPop s lv).next = s.next := by
-  unfold afterPop; split <;> (try split) <;> rfl
-@[simp] theorem afterPop_inputDone : (afterPop s lv).inputDone = s.inputDone := by
-  unfold afterPop; split <;> (try split) <;> rfl
-@[simp] theorem afterPop_hdr : (afterPop s lv).hdr = s.hdr := by
-  unfold afterPop; split <;> (try split) <;> rfl
-@[simp] theorem afterPop_hdrSets : (afterPop s lv).hdrSets = s.hdrSets := by
-  unfold afterPop; split <;> (try split) <;> rfl
-@[simp] theorem afterPop_nested : (afterPop s lv).nested = s.nested := by
-  unfold afterPop; split <;> (try split) <;> rfl
-@[simp] theorem afterPop_cur : (afterPop s lv).cur = s.cur := by
-  unfold afterPop; split <;> (try split) <;> rfl
-@[simp] theorem afterPop_blob : (afterPop s lv).blob = s.blob := by
-  unfold afterPop; split <;> (try split) <;> rfl
-@[simp] theorem afterPop_work : (afterPop s lv).work = s.work := by
-  unfold afterPop; split <;> (try split) <;> rfl
-@[simp] theorem afterPop_wpc : (afterPop s lv).wpc = s.wpc := by
-  unfold afterPop; split <;> (try split) <;> rfl
-@[simp] theorem afterPop_status : (afterPop s lv).status = s.status := by
-  unfold afterPop; split <;> (try split) <;> rfl
-@[simp] theorem afterPop_hdrGot : (afterPop s lv).hdrGot = s.hdrGot := by
-  unfold afterPop; split <;> (try split) <;> rfl
-@[simp] theorem afterPop_results : (afterPop s lv).results = s.results := by
-  unfold afterPop; split <;> (try split) <;> rfl
-@[simp] theorem afterPop_faulted : (afterPop s lv).faulted = s.faulted := by
-  unfold afterPop; split <;> (try split) <;> rfl
-@[simp] theorem afterPop_sawEod : (afterPop s lv).sawEod = s.sawEod := by
-  unfold afterPop; split <;> (try split) <;> rfl
-@[simp] theorem afterPop_readsAtClose : (afterPop s lv).readsAtClose = s.readsAtClose := by
-  unfold afterPop; split <;> (try split) <;> rfl
-@[simp] theorem afterPop_destroyed : (afterPop s lv).destroyed = s.destroyed := by
-  unfold afterPop; split <;> (try split) <;> rfl
-
-/-- the three fields `afterPop` changes: with `l` the first (oldest) level -/
-theorem afterPop_nil : afterPop s [] = { s with cpc := .readPop } := rfl
-
-@[simp] theorem afterPop_back : (afterPop s lv).back = if lv.length ≤ 1 then s.back else lv.tail := by
-  unfold afterPop; split <;> (try split) <;> simp_all
-  all_goals (rename_i h _; cases ‹List (List α)› <;> simp_all)
-
-@[simp] theorem afterPop_cpc : (afterPop s lv).cpc =
-    if (lv.headD []).isEmpty then .readPop else .ret (.data (lv.headD [])) := by
-  unfold afterPop; split <;> (try split) <;> simp_all
-
-@[simp] theorem afterPop_delivered : (afterPop s lv).delivered = s.delivered ++ lv.headD [] := by
-  unfold afterPop; split <;> (try split) <;> simp_all
-
-@[simp] theorem afterClose_inq : (afterClose s k).inq = s.inq := by cases k <;> rfl
-@[simp] theorem afterClose_outq : (afterClose s k).outq = s.outq := by cases k <;> rfl
-@[simp] theorem afterClose_fut : (afterClose s k).fut = s.fut := by cases k <;> rfl
-@[simp] theorem afterClose_want : (afterClose s k).want = s.want := by cases k <;> rfl
-@[simp] theorem afterClose_nIn : (afterClose s k).nIn = s.nIn := by cases k <;> rfl
-@[simp] theorem afterClose_nOut : (afterClose s k).nOut = s.nOut := by cases k <;> rfl
-@[simp] theorem afterClose_rpc : (afterClose s k).rpc = s.rpc := by cases k <;> rfl
-@[simp] theorem afterClose_stop : (afterClose s k).stop = s.stop := by cases k <;> rfl
-@[simp] theorem afterClose_reads : (afterClose s k).reads = s.reads := by cases k <;> rfl
-@[simp] theorem afterClose_ppc : (afterClose s k).ppc = s.ppc := by cases k <;> rfl
-@[simp] theorem afterClose_avail : (afterClose s k).avail = s.avail := by cases k <;> rfl
-@[simp] theorem afterClose_next : (afterClose s k).next = s.next := by cases k <;> rfl
-@[simp] theorem afterClose_inputDone : (afterClose s k).inputDone = s.inputDone := by cases k <;> rfl
-@[simp] theorem afterClose_hdr : (afterClose s k).hdr = s.hdr := by cases k <;> rfl
-@[simp] theorem afterClose_hdrSets : (afterClose s k).hdrSets = s.hdrSets := by cases k <;> rfl
-@[simp] theorem afterClose_nested : (afterClose s k).nested = s.nested := by cases k <;> rfl
-@[simp] theorem afterClose_cur : (afterClose s k).cur = s.cur := by cases k <;> rfl
-@[simp] theorem afterClose_blob : (afterClose s k).blob = s.blob := by cases k <;> rfl
-@[simp] theorem afterClose_work : (afterClose s k).work = s.work := by cases k <;> rfl
-@[simp] theorem afterClose_wpc : (afterClose s k).wpc = s.wpc := by cases k <;> rfl
-@[simp] theorem afterClose_back : (afterClose s k).back = s.back := by cases k <;> rfl
-@[simp] theorem afterClose_hdrGot : (afterClose s k).hdrGot = s.hdrGot := by cases k <;> rfl
-@[simp] theorem afterClose_delivered : (afterClose s k).delivered = s.delivered := by cases k <;> rfl
-@[simp] theorem afterClose_results : (afterClose s k).results = s.results := by cases k <;> rfl
-@[simp] theorem afterClose_faulted : (afterClose s k).faulted = s.faulted := by cases k <;> rfl
-@[simp] theorem afterClose_sawEod : (afterClose s k).sawEod = s.sawEod := by cases k <;> rfl
-@[simp] theorem afterClose_destroyed : (afterClose s k).destroyed = s.destroyed := by cases k <;> rfl
-@[simp] theorem afterClose_readsAtClose :
-    (afterClose s k).readsAtClose = s.readsAtClose.or (some s.reads) := by cases k <;> rfl
-@[simp] theorem afterClose_status :
-    (afterClose s k).status = match k with | .rethrow _ => .error | _ => s.status := by cases k <;> rfl
-@[simp] theorem afterClose_cpc :
-    (afterClose s k).cpc = match k with | .ret => .ret .ok | .rethrow c => .ret (.exc c) | .dtor => .dtorJoinP := by
-  cases k <;> rfl
-
-end proj
-
-/-! ## definitions for the status invariant -/
-
-/-- consumer program counters in which the Reader has not started to close -/
-def cpcLive : CPc α → Bool
-  | .idle | .hdrWait | .readPop | .readWaitPop | .readGot _ | .eodSd | .eodSdRun | .ret _ => true
-  | _ => false
-
-/-- consumer program counters inside `m_osmdata_queue.shutdown()` -/
-def cpcSdRun : CPc α → Bool
-  | .closeSdRun _ | .eodSdRun | .dtorSdRun => true
-  | _ => false
-
-/-- the invariant of the consumer's status machine -/
-def StatusInv (s : State α) : Prop :=
-  (s.status = .okay → s.stop = false ∧ cpcLive s.cpc = true ∧ (s.outq.inUse = true ∨ s.cpc = .eodSdRun)) ∧
-  ((s.outq.pc tC = .sdEntered ∨ s.outq.pc tC = .sdFlagged) → cpcSdRun s.cpc = true) ∧
-  (s.status = .error → s.cpc = .idle ∨ ∃ r, s.cpc = .ret r)
-
-theorem cpcLive_sdRun (p : CPc α) (h1 : cpcLive p = true) (h2 : cpcSdRun p = true) : p = .eodSdRun := by
-  cases p <;> simp_all [cpcLive, cpcSdRun]
-
-
-/-! ## definitions and helper lemmas for the buffer invariant -/
-
-def isBuf : Val α → Bool
-  | .buf _ => true
-  | _ => false
-
-def wfVal : Val α → Bool
-  | .buf lv => wfLevels lv
-  | _ => true
-
-/-- the value the read thread is handing to the input queue -/
-def rpcVal : RPc α → Option (Val α)
-  | .push v _ | .pushing _ v _ | .pushed _ v _ => some v
-  | _ => none
-
-/-- the value the parser thread is handing to the osmdata queue -/
-def ppcVal : PPc α → Option (Val α)
-  | .push v _ | .pushing _ (some v) _ | .pushed _ v _ => some v
-  | _ => none
-
-/-- parser program counters after the catch block of Parser::parse (never back to run()) -/
-def ppcPost : PPc α → Bool
-  | .push _ k | .pushing _ (some _) k | .pushed _ _ k | .sdIn k | .sdInRun k => k != .run
-  | .done => true
-  | _ => false
-
-/-- consumer program counters in which `m_back_buffers` is empty: inside read() before a buffer was
-    unpacked, and inside the close() of a catch block -/
-def cpcBackNil : CPc α → Bool
-  | .readPop | .readWaitPop | .readGot _ | .eodSd | .eodSdRun
-  | .closeSd (.rethrow _) | .closeSdRun (.rethrow _) | .closeJoin (.rethrow _) => true
-  | _ => false
-
-def NoBuf (s : State α) : Prop :=
-  (∀ id, isBuf (s.want id) = false) ∧ (∀ id v, s.fut id = some v → isBuf v = false) ∧
-  (∀ v, ppcVal s.ppc = some v → isBuf v = false) ∧ s.nested = [] ∧ s.cur = [] ∧ s.back = []
-
-def BufInv (s : State α) : Prop :=
-  (∀ v, rpcVal s.rpc = some v → isBuf v = false) ∧
-  (∀ l ∈ s.nested, l ≠ []) ∧
-  (∀ id, wfVal (s.want id) = true) ∧
-  (∀ id v, s.fut id = some v → wfVal v = true) ∧
-  (∀ v, ppcVal s.ppc = some v → wfVal v = true) ∧
-  (cpcBackNil s.cpc = true → s.back = []) ∧
-  (s.status = .error → s.back = []) ∧
-  (s.hdr ≠ some none → NoBuf s) ∧
-  (∀ code, s.hdr = some (some code) → ppcPost s.ppc = true)
-
-theorem wfLevels_append_singleton (n : List (List α)) (cur : List α) (h : ∀ l ∈ n, l ≠ []) :
-    wfLevels (n ++ [cur]) = true := by
-  induction n with
-  | nil => simp [wfLevels]
-  | cons a n ih =>
-    cases n with
-    | nil => simp_all [wfLevels]
-    | cons b n => simp_all [wfLevels]
-
-theorem isBuf_false_wfVal (v : Val α) (h : isBuf v = false) : wfVal v = true := by
-  cases v <;> simp_all [isBuf, wfVal]
-
-theorem afterPop_backNil (s : State α) (lv : List (List α)) (hw : wfLevels lv = true) (hb : s.back = [])
-    (hc : cpcBackNil (afterPop s lv).cpc = true) : (afterPop s lv).back = [] := by
-  unfold afterPop at hc ⊢
-  split at hc <;> (try split at hc) <;> simp_all [wfLevels, cpcBackNil]
-
-theorem hdr_cases (h : Option (Option Nat)) : h = none ∨ h = some none ∨ ∃ c, h = some (some c) := by
-  rcases h with _ | _ | c <;> simp
-
-theorem ppcVal_pCont (k : PK) (v : Val α) (h : ppcVal (pCont k : PPc α) = some v) : v = .eod := by
-  cases k <;> simp_all [pCont, ppcVal]
-
-theorem rpcVal_rCont (k : RK) (v : Val α) (h : rpcVal (rCont k : RPc α) = some v) : v = .eod := by
-  cases k <;> simp_all [rCont, rpcVal]
-
-theorem ppcVal_pCont_iff (k : PK) (v : Val α) : ppcVal (pCont k : PPc α) = some v ↔ (k = .eodNext ∧ v = .eod) := by
-  cases k <;> simp [pCont, ppcVal, eq_comm]
-
-theorem rpcVal_rCont_iff (k : RK) (v : Val α) : rpcVal (rCont k : RPc α) = some v ↔ (k = .eodNext ∧ v = .eod) := by
-  cases k <;> simp [rCont, rpcVal, eq_comm]
-
-theorem ppcPost_pCont (k : PK) (h : (k != .run) = true) : ppcPost (pCont k : PPc α) = true := by
-  cases k <;> simp_all [pCont, ppcPost]
-
-theorem cpcBackNil_closeSdRun (k : CK) : cpcBackNil (.closeSdRun k : CPc α) = cpcBackNil (.closeSd k : CPc α) := by
-  cases k <;> rfl
-theorem cpcBackNil_closeJoin (k : CK) : cpcBackNil (.closeJoin k : CPc α) = cpcBackNil (.closeSd k : CPc α) := by
-  cases k <;> rfl
-
-theorem wfLevels_single (b : List α) : wfLevels [b] = true := rfl
-
 variable [DecidableEq α]
-
-/-- Case split of one pipeline step over all events (queue events split into the thirteen QueueSM
-    events).  In every goal `s'` is replaced by the successor state; for a queue event the new
-    queue state is `q` and `hq : QueueSM.step? _ _ _ = some q`; the guards are anonymous
-    hypotheses. -/
-syntax "pl_cases " ident " with " ident ident ident : tactic
-macro_rules
-  | `(tactic| pl_cases $e:ident with $h:ident $q:ident $hq:ident) => `(tactic|
-      ((try simp only [Machine.Step, machine] at $h:ident)
-       cases $e:ident <;> (try (rename_i qe; cases qe)) <;>
-         simp only [step?] at $h:ident <;> (repeat' split at $h:ident) <;>
-         simp only [Option.map_eq_some_iff, Option.some.injEq, reduceCtorEq, false_and, exists_false] at $h:ident <;>
-         first
-           | (obtain ⟨$q:ident, $hq:ident, $h:ident⟩ := $h:ident; (repeat' split at $h:ident) <;> subst $h:ident)
-           | subst $h:ident))
-
-/-- every pipeline step leaves the input queue alone or is a step of the queue machine -/
-theorem step_inq (c : Cfg α) (s s' : State α) (e : Ev α) (h : step? c s e = some s') :
-    s'.inq = s.inq ∨ ∃ qe, QueueSM.step? c.inqC s.inq qe = some s'.inq := by
-  pl_cases e with h q hq
-  all_goals first
-    | (left; simp; done)
-    | (right; exact ⟨_, hq⟩)
-
-theorem step_outq (c : Cfg α) (s s' : State α) (e : Ev α) (h : step? c s e = some s') :
-    s'.outq = s.outq ∨ ∃ qe, QueueSM.step? c.outqC s.outq qe = some s'.outq := by
-  pl_cases e with h q hq
-  all_goals first
-    | (left; simp; done)
-    | (right; exact ⟨_, hq⟩)
-
-/-! ## frame lemmas of the queue machine (who can change what) -/
-
-section qframe
-variable {β : Type} [DecidableEq β]
-
-theorem q_producers (c : QueueSM.Cfg) (s s' : QueueSM.State β) (e : QueueSM.Ev β)
-    (h : QueueSM.step? c s e = some s') :
-    ∀ t, t ∈ s'.producers → t ∈ s.producers ∨ ∃ x, e = .pushEnter t x := by
-  replace h : (QueueSM.machine β c).Step s e s' := h
-  qsm_cases e with h tid t <;> intro u hu <;> simp only [QueueSM.take_producers] at hu <;>
-    first | grind | (simp_all; done) | (simp_all <;> grind)
-
-theorem q_called (c : QueueSM.Cfg) (s s' : QueueSM.State β) (e : QueueSM.Ev β)
-    (h : QueueSM.step? c s e = some s') :
-    ∀ x, x ∈ s'.called → x ∈ s.called ∨ e = .pushEnter x.1 x.2 := by
-  replace h : (QueueSM.machine β c).Step s e s' := h
-  qsm_cases e with h tid t <;> intro u hu <;> simp only [QueueSM.take_called] at hu <;> grind
-
-/-- a thread is inside shutdown() only after it called it, and leaves it with `sdLocked` -/
-theorem q_pc_sd (c : QueueSM.Cfg) (s s' : QueueSM.State β) (e : QueueSM.Ev β)
-    (h : QueueSM.step? c s e = some s') (u : Tid) :
-    (s'.pc u = .sdEntered ∨ s'.pc u = .sdFlagged) →
-      ((s.pc u = .sdEntered ∨ s.pc u = .sdFlagged) ∧ e ≠ .sdLocked u) ∨ e = .sdEnter u := by
-  replace h : (QueueSM.machine β c).Step s e s' := h
-  qsm_cases e with h tid t <;> simp only [QueueSM.take_pc, setPc_apply] <;> grind
-
-theorem q_pc_pop (c : QueueSM.Cfg) (s s' : QueueSM.State β) (e : QueueSM.Ev β)
-    (h : QueueSM.step? c s e = some s') (u : Tid) :
-    s'.pc u = .popWaiting → s.pc u = .popWaiting ∨ e = .popBlock u := by
-  replace h : (QueueSM.machine β c).Step s e s' := h
-  qsm_cases e with h tid t <;> simp only [QueueSM.take_pc, setPc_apply] <;> grind
-
-/-- `m_in_use` is only cleared by the store of a thread inside shutdown() -/
-theorem q_inUse (c : QueueSM.Cfg) (s s' : QueueSM.State β) (e : QueueSM.Ev β)
-    (h : QueueSM.step? c s e = some s') :
-    s'.inUse = false → s.inUse = false ∨ ∃ t, e = .sdFlag t ∧ s.pc t = .sdEntered := by
-  replace h : (QueueSM.machine β c).Step s e s' := h
-  qsm_cases e with h tid t <;> simp only [QueueSM.take_inUse] <;> grind
-
-end qframe
-
-/-- The input queue of ANY pipeline run is a run of the queue machine of C19. -/
-theorem reachable_inq (c : Cfg α) (s : State α) (h : (machine c).Reachable s) :
-    (QueueSM.machine Nat c.inqC).Reachable s.inq := by
-  induction h with
-  | init => exact .init
-  | step hr hst ih =>
-    rcases step_inq c _ _ _ hst with h | ⟨qe, h⟩
-    · rw [h]; exact ih
-    · exact .step ih h
-
-/-- The osmdata queue of ANY pipeline run is a run of the queue machine of C19. -/
-theorem reachable_outq (c : Cfg α) (s : State α) (h : (machine c).Reachable s) :
-    (QueueSM.machine Nat c.outqC).Reachable s.outq := by
-  induction h with
-  | init => exact .init
-  | step hr hst ih =>
-    rcases step_outq c _ _ _ hst with h | ⟨qe, h⟩
-    · rw [h]; exact ih
-    · exact .step ih h
-
-/-! ## single producer / single consumer / single shutdown caller per Reader queue -/
-
-theorem inq_single_producer (c : Cfg α) (s : State α) (h : (machine c).Reachable s) :
-    (∀ t ∈ s.inq.producers, t = tR) ∧ (∀ x ∈ s.inq.called, x.1 = tR) := by
-  revert s
-  apply Machine.invariant
-  · simp [machine, init, QueueSM.init]
-  · intro s e s' _ ih hst
-    obtain ⟨ih1, ih2⟩ := ih
-    pl_cases e with hst q hq
-    all_goals first
-      | exact ⟨ih1, ih2⟩
-      | (simp only [afterPop_inq, afterPop_outq, afterClose_inq, afterClose_outq]; exact ⟨ih1, ih2⟩)
-      | (have h1 := q_producers _ _ _ _ hq
-         have h2 := q_called _ _ _ _ hq
-         refine ⟨fun t ht => ?_, fun x hx => ?_⟩
-         · rcases h1 t ht with h | ⟨y, h⟩
-           · exact ih1 t h
-           · cases h <;> first | assumption | exact (‹_ ∧ _›).1
-         · rcases h2 x hx with h | h
-           · exact ih2 x h
-           · cases h <;> first | assumption | exact (‹_ ∧ _›).1)
-
-theorem outq_single_producer (c : Cfg α) (s : State α) (h : (machine c).Reachable s) :
-    (∀ t ∈ s.outq.producers, t = tP) ∧ (∀ x ∈ s.outq.called, x.1 = tP) := by
-  revert s
-  apply Machine.invariant
-  · simp [machine, init, QueueSM.init]
-  · intro s e s' _ ih hst
-    obtain ⟨ih1, ih2⟩ := ih
-    pl_cases e with hst q hq
-    all_goals first
-      | exact ⟨ih1, ih2⟩
-      | (simp only [afterPop_inq, afterPop_outq, afterClose_inq, afterClose_outq]; exact ⟨ih1, ih2⟩)
-      | (have h1 := q_producers _ _ _ _ hq
-         have h2 := q_called _ _ _ _ hq
-         refine ⟨fun t ht => ?_, fun x hx => ?_⟩
-         · rcases h1 t ht with h | ⟨y, h⟩
-           · exact ih1 t h
-           · cases h <;> first | assumption | exact (‹_ ∧ _›).1
-         · rcases h2 x hx with h | h
-           · exact ih2 x h
-           · cases h <;> first | assumption | exact (‹_ ∧ _›).1)
-
-theorem length_le_one_of_nodup_const {l : List Tid} {a : Tid} (hn : l.Nodup) (h : ∀ t ∈ l, t = a) :
-    l.length ≤ 1 := by
-  match l, hn, h with
-  | [], _, _ => simp
-  | [_], _, _ => simp
-  | x :: y :: _, hn, h =>
-    have hx := h x (by simp)
-    have hy := h y (by simp)
-    simp_all
-
-/-- The C19 finding "push() spins after shutdown() with ≥ 2 producers on a bounded queue" needs two
-    producers: not reachable from a Reader. -/
-theorem inq_producers_le_one (c : Cfg α) (s : State α) (h : (machine c).Reachable s) :
-    s.inq.producers.length ≤ 1 :=
-  length_le_one_of_nodup_const (QueueSM.inv_producers _ _ (reachable_inq c s h)).1 (inq_single_producer c s h).1
-
-theorem outq_producers_le_one (c : Cfg α) (s : State α) (h : (machine c).Reachable s) :
-    s.outq.producers.length ≤ 1 :=
-  length_le_one_of_nodup_const (QueueSM.inv_producers _ _ (reachable_outq c s h)).1 (outq_single_producer c s h).1
-
-/-- only the parser thread calls shutdown() on / pops from the input queue -/
-theorem inq_roles (c : Cfg α) (s : State α) (h : (machine c).Reachable s) :
-    (∀ t, (s.inq.pc t = .sdEntered ∨ s.inq.pc t = .sdFlagged) → t = tP) ∧
-    (∀ t, s.inq.pc t = .popWaiting → t = tP) := by
-  revert s
-  apply Machine.invariant
-  · simp [machine, init, QueueSM.init]
-  · intro s e s' _ ih hst
-    obtain ⟨ih1, ih2⟩ := ih
-    pl_cases e with hst q hq
-    all_goals first
-      | exact ⟨ih1, ih2⟩
-      | (simp only [afterPop_inq, afterPop_outq, afterClose_inq, afterClose_outq]; exact ⟨ih1, ih2⟩)
-      | (refine ⟨fun t ht => ?_, fun t ht => ?_⟩
-         · rcases q_pc_sd _ _ _ _ hq t ht with h | h
-           · exact ih1 t h.1
-           · cases h <;> first | assumption | exact (‹_ ∧ _›).1
-         · rcases q_pc_pop _ _ _ _ hq t ht with h | h
-           · exact ih2 t h
-           · cases h <;> first | assumption | exact (‹_ ∧ _›).1)
-
-/-- only the consumer calls shutdown() on / pops from the osmdata queue -/
-theorem outq_roles (c : Cfg α) (s : State α) (h : (machine c).Reachable s) :
-    (∀ t, (s.outq.pc t = .sdEntered ∨ s.outq.pc t = .sdFlagged) → t = tC) ∧
-    (∀ t, s.outq.pc t = .popWaiting → t = tC) := by
-  revert s
-  apply Machine.invariant
-  · simp [machine, init, QueueSM.init]
-  · intro s e s' _ ih hst
-    obtain ⟨ih1, ih2⟩ := ih
-    pl_cases e with hst q hq
-    all_goals first
-      | exact ⟨ih1, ih2⟩
-      | (simp only [afterPop_inq, afterPop_outq, afterClose_inq, afterClose_outq]; exact ⟨ih1, ih2⟩)
-      | (refine ⟨fun t ht => ?_, fun t ht => ?_⟩
-         · rcases q_pc_sd _ _ _ _ hq t ht with h | h
-           · exact ih1 t h.1
-           · cases h <;> first | assumption | exact (‹_ ∧ _›).1
-         · rcases q_pc_pop _ _ _ _ hq t ht with h | h
-           · exact ih2 t h
-           · cases h <;> first | assumption | exact (‹_ ∧ _›).1)
-
-theorem inq_sd_caller (c : Cfg α) (s : State α) (h : (machine c).Reachable s) :
-    ∀ t, (s.inq.pc t = .sdEntered ∨ s.inq.pc t = .sdFlagged) → t = tP := (inq_roles c s h).1
-theorem outq_sd_caller (c : Cfg α) (s : State α) (h : (machine c).Reachable s) :
-    ∀ t, (s.outq.pc t = .sdEntered ∨ s.outq.pc t = .sdFlagged) → t = tC := (outq_roles c s h).1
-theorem inq_consumer (c : Cfg α) (s : State α) (h : (machine c).Reachable s) :
-    ∀ t, s.inq.pc t = .popWaiting → t = tP := (inq_roles c s h).2
-theorem outq_consumer (c : Cfg α) (s : State α) (h : (machine c).Reachable s) :
-    ∀ t, s.outq.pc t = .popWaiting → t = tC := (outq_roles c s h).2
-
-
-/-! ## the header promise is fulfilled exactly once (C07) -/
-
-theorem hdr_once (c : Cfg α) (s : State α) (h : (machine c).Reachable s) :
-    s.hdrSets ≤ 1 ∧ (s.hdr = none ↔ s.hdrSets = 0) := by
-  revert s
-  apply Machine.invariant
-  · simp [machine, init]
-  · intro s e s' _ ih hst
-    pl_cases e with hst q hq
-    all_goals first
-      | exact ih
-      | (simp only [afterPop_hdr, afterPop_hdrSets, afterClose_hdr, afterClose_hdrSets]; exact ih)
-      | (cases hh : s.hdr <;> simp_all)
-
-theorem hdr_stable (c : Cfg α) (s s' : State α) (e : Ev α) (hst : (machine c).Step s e s') :
-    s.hdr ≠ none → s'.hdr = s.hdr := by
-  intro hne
-  pl_cases e with hst q hq
-  all_goals first
-    | rfl
-    | (simp only [afterPop_hdr, afterClose_hdr]; done)
-    | (cases hh : s.hdr <;> simp_all)
-
-/-! ## read thread: joined by close(), no read() afterwards -/
-
-theorem reads_after_close_inv (c : Cfg α) (s : State α) (h : (machine c).Reachable s) :
-    ∀ n, s.readsAtClose = some n → s.rpc = .done ∧ s.reads = n := by
-  revert s
-  apply Machine.invariant
-  · simp [machine, init]
-  · intro s e s' _ ih hst
-    pl_cases e with hst q hq
-    all_goals first
-      | exact ih
-      | (simp only [afterPop_readsAtClose, afterPop_rpc, afterPop_reads]; exact ih)
-      | (intro n hn; have := ih n hn; simp_all; done)
-      | (intro n; simp only [afterClose_readsAtClose, afterClose_rpc, afterClose_reads]
-         cases hh : s.readsAtClose <;> simp_all)
-
-theorem reads_after_close (c : Cfg α) (s : State α) (h : (machine c).Reachable s) :
-    ∀ n, s.readsAtClose = some n → s.reads = n :=
-  fun n hn => (reads_after_close_inv c s h n hn).2
-
-
-/-- the read thread never leaves `done` -/
-theorem rpc_done_stable (c : Cfg α) (s s' : State α) (e : Ev α) (hst : (machine c).Step s e s') :
-    s.rpc = .done → s'.rpc = .done := by
-  intro hd
-  pl_cases e with hst q hq
-  all_goals first
-    | exact hd
-    | (simp only [afterPop_rpc, afterClose_rpc]; exact hd)
-    | simp_all
-
-
-theorem status_inv (c : Cfg α) : ∀ s, (machine c).Reachable s → StatusInv s := by
-  apply Machine.invariant
-  · simp [StatusInv, machine, init, QueueSM.init, cpcLive]
-  · intro s e s' _ ih hst
-    obtain ⟨ih1, ih2, ih3⟩ := ih
-    pl_cases e with hst q hq
-    all_goals first | exact ⟨ih1, ih2, ih3⟩ | skip
-    any_goals (revert hq; intro hq
-               have hsd := q_pc_sd _ _ _ _ hq tC
-               have hiu := q_inUse _ _ _ _ hq)
-    all_goals simp only [StatusInv, afterPop_status, afterPop_stop, afterPop_outq, afterPop_cpc,
-      afterClose_status, afterClose_stop, afterClose_outq, afterClose_cpc]
-    all_goals (grind [cpcLive, cpcSdRun, cpcLive_sdRun])
-
-/-- status okay: the read thread has not been told to stop, and the osmdata queue is in use, except
-    inside the shutdown() that read() calls after it popped the end-of-data marker (status becomes
-    eof only when that shutdown() returns). -/
-theorem status_okay_stop (c : Cfg α) (s : State α) (h : (machine c).Reachable s) :
-    s.status = .okay → s.stop = false ∧ (s.outq.inUse = true ∨ s.cpc = .eodSdRun) := by
-  intro hs
-  obtain ⟨h1, h2, h3⟩ := (status_inv c s h).1 hs
-  exact ⟨h1, h3⟩
-
-theorem status_okay_live (c : Cfg α) (s : State α) (h : (machine c).Reachable s) :
-    s.status = .okay → cpcLive s.cpc = true := fun hs => ((status_inv c s h).1 hs).2.1
-
-theorem status_error_cpc (c : Cfg α) (s : State α) (h : (machine c).Reachable s) :
-    s.status = .error → s.cpc = .idle ∨ ∃ r, s.cpc = .ret r := (status_inv c s h).2.2
-
-/-- the consumer is inside `m_osmdata_queue.shutdown()` only in the three `…SdRun` states -/
-theorem outq_sd_cpc (c : Cfg α) (s : State α) (h : (machine c).Reachable s) :
-    (s.outq.pc tC = .sdEntered ∨ s.outq.pc tC = .sdFlagged) → cpcSdRun s.cpc = true := (status_inv c s h).2.1
-
-/-- status error is left only by close() / the destructor (status closed) -/
-theorem error_is_final (c : Cfg α) (s : State α) (h : (machine c).Reachable s) (e : Ev α) (s' : State α)
-    (hst : (machine c).Step s e s') : s.status = .error → s'.status = .error ∨ s'.status = .closed := by
-  intro hs
-  have h3 := status_error_cpc c s h hs
-  pl_cases e with hst q hq
-  all_goals first
-    | (left; exact hs)
-    | (simp only [afterPop_status, afterClose_status]; grind)
-
-/-- after an error no read() hands out anything but what is still in the back buffers -/
-theorem no_data_after_error (c : Cfg α) (s : State α) (h : (machine c).Reachable s) (e : Ev α) (s' : State α)
-    (hst : (machine c).Step s e s') : s.status = .error → s.back = [] → s'.delivered = s.delivered := by
-  intro hs hb
-  have h3 := status_error_cpc c s h hs
-  pl_cases e with hst q hq
-  all_goals first
-    | rfl
-    | (simp only [afterPop_delivered, afterClose_delivered] <;> grind)
-
-/-- read() on a Reader in status error throws io_error unless back buffers are left -/
-theorem read_after_error (c : Cfg α) (s s' : State α) (hst : (machine c).Step s .cRead s') :
-    s.status = .error → s'.cpc = .ret .ioError ∨ s.back ≠ [] := by
-  intro hs
-  simp only [Machine.Step, machine, step?] at hst
-  repeat' split at hst
-  all_goals (simp only [Option.some.injEq, reduceCtorEq] at hst)
-  all_goals (subst hst; simp_all)
-
-/-! ## buffers in flight are well-formed; status error means nothing is left to deliver -/
-
-
-set_option maxHeartbeats 1000000 in
-theorem buf_inv (c : Cfg α) : ∀ s, (machine c).Reachable s → BufInv s := by
-  apply Machine.invariant
-  · simp [BufInv, NoBuf, machine, init, rpcVal, ppcVal, wfVal, isBuf, cpcBackNil]
-  · intro s e s' hr ih hst
-    have herr := status_error_cpc c s hr
-    pl_cases e with hst q hq
-    all_goals first | exact ih | skip
-    all_goals simp only [BufInv, NoBuf] at ih ⊢
-    all_goals obtain ⟨i1, i2, i3, i4, i5, i6, i7, i8, i9⟩ := ih
-    all_goals try simp only [afterPop_rpc, afterPop_nested, afterPop_want, afterPop_fut, afterPop_ppc, afterPop_status,
-      afterPop_hdr, afterPop_cur, afterClose_rpc, afterClose_nested, afterClose_want, afterClose_fut, afterClose_ppc,
-      afterClose_status, afterClose_hdr, afterClose_cur, afterClose_back, afterClose_cpc]
-    all_goals have hh := hdr_cases s.hdr
-    all_goals try simp only [ppcVal_pCont_iff, rpcVal_rCont_iff]
-    all_goals (refine ⟨?_, ?_, ?_, ?_, ?_, ?_, ?_, ?_, ?_⟩)
-    all_goals first
-      | assumption
-      | (grind [rpcVal, ppcVal, wfVal, isBuf, cpcBackNil, ppcPost, setPc_apply, isBuf_false_wfVal, ppcVal_pCont, rpcVal_rCont,
-          ppcPost_pCont, cpcBackNil_closeSdRun, cpcBackNil_closeJoin, wfLevels_single, wfLevels_append_singleton, afterPop_backNil])
-
-/-- every buffer a future holds has only non-empty nested levels (what `Reader::read` relies on
-    when it moves the nested buffers to `m_back_buffers`) -/
-theorem fut_wf (c : Cfg α) (s : State α) (h : (machine c).Reachable s) (id : Nat) (lv : List (List α)) :
-    s.fut id = some (.buf lv) → wfLevels lv = true := by
-  intro hf
-  have := (buf_inv c s h).2.2.2.1 id _ hf
-  simpa [wfVal] using this
-
-/-- a Reader in status error has no back buffers left … -/
-theorem error_back_nil (c : Cfg α) (s : State α) (h : (machine c).Reachable s) :
-    s.status = .error → s.back = [] := (buf_inv c s h).2.2.2.2.2.2.1
-
-/-- … so nothing is handed to the caller any more … -/
-theorem no_data_after_error' (c : Cfg α) (s : State α) (h : (machine c).Reachable s) (e : Ev α) (s' : State α)
-    (hst : (machine c).Step s e s') : s.status = .error → s'.delivered = s.delivered :=
-  fun hs => no_data_after_error c s h e s' hst hs (error_back_nil c s h hs)
-
-/-- … and every read() throws io_error. -/
-theorem read_after_error' (c : Cfg α) (s : State α) (h : (machine c).Reachable s) (s' : State α)
-    (hst : (machine c).Step s .cRead s') : s.status = .error → s'.cpc = .ret .ioError := by
-  intro hs
-  rcases read_after_error c s s' hst hs with h1 | h1
-  · exact h1
-  · exact absurd (error_back_nil c s h hs) h1
-
-/-- a parser that failed before it set the header has produced no buffer at all -/
-theorem hdr_exc_no_data (c : Cfg α) (s : State α) (h : (machine c).Reachable s) :
-    s.hdr ≠ some none → NoBuf s := (buf_inv c s h).2.2.2.2.2.2.2.1
 
 /-! ## witness: `status = okay → outq.inUse = true` is not an invariant -/
 
